@@ -4,6 +4,7 @@ virtual time.  Written from the nRF24L01+ product specification v1.0, not from t
 Nothing in here imports the library under test.
 """
 import copy
+import copyreg
 import ctypes
 import heapq
 import _thread
@@ -28,6 +29,8 @@ def _deepcopy_memoryview(x, memo):
 
 
 copy._deepcopy_dispatch[memoryview] = _deepcopy_memoryview
+# (pickle-based state copies: the view becomes a view of a private copy of its bytes)
+copyreg.pickle(memoryview, lambda m: (memoryview, (bytes(m) if m.readonly else bytearray(m),)))
 
 US = 1000  # ns per microsecond
 MS = 1000000
